@@ -157,16 +157,27 @@ macro_rules! impl_inner_observer {
       }
 
       fn complete(self) {
-        let mut inner = self.0.rc_deref_mut();
-        if let Some(data) = inner.as_mut() {
-          if let Some(task) = data.subscribe_tasks.pop_front() {
-            task();
-          } else {
-            data.subscribed -= 1;
-            if data.subscribed == 0 && data.outside_completed {
-              inner.take().unwrap().observer.complete();
+        let task = {
+          let mut inner = self.0.rc_deref_mut();
+          match inner.as_mut() {
+            Some(data) => {
+              let task = data.subscribe_tasks.pop_front();
+              if task.is_none() {
+                data.subscribed -= 1;
+                if data.subscribed == 0 && data.outside_completed {
+                  inner.take().unwrap().observer.complete();
+                }
+              }
+              task
             }
+            None => None,
           }
+        };
+        // subscribe the next waiting inner observable only after the shared
+        // state is released: a synchronous inner emits (and completes) from
+        // within its subscription and needs to access the state again.
+        if let Some(task) = task {
+          task();
         }
       }
 
